@@ -495,6 +495,12 @@ func (m *Model) FindCycles(f *MFn) CycleInfo {
 	dfs = func(g *MFn) {
 		state[g] = 1
 		stack = append(stack, g)
+		if g.OkExec >= 0 && g != f {
+			// already built: its values are cached, resolution stops here
+			stack = stack[:len(stack)-1]
+			state[g] = 2
+			return
+		}
 		for _, l := range g.Leaves {
 			for _, t := range m.Targets(g, l) {
 				switch state[t] {
